@@ -408,6 +408,100 @@ theorem partialLookup_spec : ∀ (idx : Index) (key : Nat), IndexWF idx →
         simp only
         rw [hrm]
 
+
+/-! ### `findLeaf` does not depend on how the separators are grouped into nodes -/
+
+theorem findLeaf_none_all : ∀ {l : List (Nat × Nat)} {key : Nat}, Asc l → findLeaf l key = none → ∀ x ∈ l, key < x.1
+  | [], _, _, _ => fun _ hx => by cases hx
+  | (s, p) :: rest, key, ha, h => by
+    obtain ⟨hs, _⟩ := List.pairwise_cons.1 ha
+    simp only [findLeaf] at h
+    by_cases hk : key < s
+    · intro x hx
+      rcases List.mem_cons.1 hx with e | e
+      · subst e; exact hk
+      · have := hs x e; simp only at this; omega
+    · simp only [hk, if_false] at h
+      cases hf : findLeaf rest key <;> simp [hf] at h
+
+theorem asc_key_unique {l : List (Nat × Nat)} (ha : Asc l) {s p q : Nat} (h1 : (s, p) ∈ l) (h2 : (s, q) ∈ l) : p = q := by
+  induction l with
+  | nil => cases h1
+  | cons x xs ih =>
+    obtain ⟨hx, hr⟩ := List.pairwise_cons.1 ha
+    rcases List.mem_cons.1 h1 with e1 | e1 <;> rcases List.mem_cons.1 h2 with e2 | e2
+    · rw [← e1] at e2; injection e2 with _ e2; exact e2.symm
+    · subst e1; have := hx _ e2; simp only at this; omega
+    · subst e2; have := hx _ e1; simp only at this; omega
+    · exact ih hr e1 e2
+
+/-- the leaf `findLeaf` selects, without reference to the order of the list: the one under the greatest separator
+`≤ key` -/
+theorem findLeaf_char : ∀ {l : List (Nat × Nat)}, Asc l → ∀ (key p : Nat),
+    (findLeaf l key = some p ↔ ∃ s, (s, p) ∈ l ∧ s ≤ key ∧ ∀ x ∈ l, x.1 ≤ key → x.1 ≤ s)
+  | [], _, key, p => by simp [findLeaf]
+  | (s0, p0) :: rest, ha, key, p => by
+    obtain ⟨hs, hr⟩ := List.pairwise_cons.1 ha
+    have ih := findLeaf_char hr key
+    simp only [findLeaf]
+    by_cases hk : key < s0
+    · simp only [hk, if_true]
+      constructor
+      · intro h; cases h
+      · rintro ⟨s, hm, hle, _⟩
+        rcases List.mem_cons.1 hm with e | e
+        · injection e with e1 _; omega
+        · have := hs _ e; simp only at this; omega
+    · simp only [hk, if_false]
+      cases hf : findLeaf rest key with
+      | some q =>
+        simp only
+        obtain ⟨sq, hq1, hq2, hq3⟩ := (ih q).1 hf
+        have hs0q : s0 < sq := by have := hs _ hq1; exact this
+        constructor
+        · intro h
+          injection h with h; subst h
+          refine ⟨sq, List.mem_cons_of_mem _ hq1, hq2, ?_⟩
+          intro x hx hxk
+          rcases List.mem_cons.1 hx with e | e
+          · subst e; simp only; omega
+          · exact hq3 x e hxk
+        · rintro ⟨s, hm, hle, hmax⟩
+          have h1 : sq ≤ s := hmax (sq, q) (List.mem_cons_of_mem _ hq1) hq2
+          rcases List.mem_cons.1 hm with e | e
+          · injection e with e1 _; omega
+          · have h2 : s ≤ sq := hq3 (s, p) e hle
+            have : s = sq := by omega
+            subst this
+            rw [asc_key_unique hr e hq1]
+      | none =>
+        simp only
+        have hall := findLeaf_none_all hr hf
+        constructor
+        · intro h
+          injection h with h; subst h
+          refine ⟨s0, List.mem_cons_self .., by omega, ?_⟩
+          intro x hx hxk
+          rcases List.mem_cons.1 hx with e | e
+          · subst e; exact Nat.le_refl _
+          · have := hall x e; omega
+        · rintro ⟨s, hm, hle, _⟩
+          rcases List.mem_cons.1 hm with e | e
+          · injection e with _ e2; rw [e2]
+          · have := hall _ e; simp only at this; omega
+
+/-- two ascending separator lists with the same `(separator, leaf)` pairs route every key alike -/
+theorem findLeaf_congr {a b : List (Nat × Nat)} (ha : Asc a) (hb : Asc b) (h : ∀ x, x ∈ a ↔ x ∈ b) (key : Nat) :
+    findLeaf a key = findLeaf b key := by
+  apply Option.ext
+  intro p
+  rw [findLeaf_char ha key p, findLeaf_char hb key p]
+  constructor
+  · rintro ⟨s, h1, h2, h3⟩
+    exact ⟨s, (h _).1 h1, h2, fun x hx => h3 x ((h x).2 hx)⟩
+  · rintro ⟨s, h1, h2, h3⟩
+    exact ⟨s, (h _).2 h1, h2, fun x hx => h3 x ((h x).1 hx)⟩
+
 /-! ### `LeafNode::get` -/
 
 /-- the first entry with the key -/
